@@ -346,3 +346,27 @@ def explore(ctx, oracles, frame_mode=False):
     ctx.cov["operations_compared"] = stats["ops"]
     ctx.cov["samples"] = samples + ctx.cov.get("samples", [])
     return stats
+
+
+def replay(ctx, path, oracles):
+    """re-run a recorded script on the real channel.c; exit 1 iff the violation reproduces"""
+    import json
+    rep = json.load(open(path))
+    script = rep.get("replay", {}).get("script")
+    if not script:
+        print("replay file names no concrete input (%s)" % rep.get("kind"))
+        return 1
+    exe, drv = build(ctx)
+    if not exe:
+        print("harness does not build"); return 1
+    cap = int(script[0].split()[1])
+    stats = {"branches": {}, "distinct": set(), "evaluations": 0, "ops": 0, "validated": 0}
+    problems = run_batch(ctx, exe, drv, [(cap, script[1:])], stats, timeout=60)
+    bad = [p for p in problems if p[1] in ("oracle", "crash")]
+    for _, kind, det in problems:
+        print(kind, det)
+    if bad:
+        print("VIOLATION property=%s replay=%s" % (ctx.prop, path))
+        return 1
+    print("not reproduced on the current tree")
+    return 0
